@@ -14,7 +14,6 @@ import (
 	"time"
 )
 
-
 // modelValues extracts scalar constants from a (get-model) answer.
 func modelValues(out string) map[string]string {
 	vals := map[string]string{}
@@ -237,11 +236,95 @@ func (e *Engine) runOverlayTest(c *Contract, test string) (string, bool) {
 	testTmp := filepath.Join(tmp, "replay_test.go")
 	os.WriteFile(stubTmp, []byte(e.stubs[stubPath]), 0o644)
 	os.WriteFile(testTmp, []byte(test), 0o644)
-	ov := map[string]any{"Replace": map[string]string{stubPath: stubTmp, testPath: testTmp}}
+	repl := map[string]string{stubPath: stubTmp, testPath: testTmp}
+	k := 0
+	for sp, text := range e.stubs {
+		if sp == stubPath {
+			continue
+		}
+		k++
+		f := filepath.Join(tmp, fmt.Sprintf("stub%d.go", k))
+		os.WriteFile(f, []byte(text), 0o644)
+		repl[sp] = f
+	}
+	ov := map[string]any{"Replace": repl}
 	ovb, _ := json.Marshal(ov)
 	ovPath := filepath.Join(tmp, "overlay.json")
 	os.WriteFile(ovPath, ovb, 0o644)
 	out, _ := runCmd(c.Dir, 120*time.Second, []string{"GOFLAGS=-mod=mod", "GOPROXY=off", "GOSUMDB=off", "GOTOOLCHAIN=local"},
 		"go", "test", "-tags", "verif", "-overlay", ovPath, "-vet=off", "-count=1", "-timeout", "60s", "-run", "^TestGvcReplay$", ".")
 	return out, strings.Contains(out, "GVC-REPLAY-VIOLATED")
+}
+
+// replayLoud confirms a failed "failure is loud" obligation of a Package
+// method on the real code: the packager is run against a writer that fails at
+// its k-th write, for every k up to the number of writes of a clean run; the
+// violation is confirmed if some run returns nil although a write failed.
+func (e *Engine) replayLoud(o *Obligation) (string, bool, string) {
+	c := o.contract
+	if c == nil || !strings.HasSuffix(c.Key, ".Package") {
+		return "", false, ""
+	}
+	pkgName := ""
+	for _, cf := range e.files {
+		if cf.Pkg == c.Pkg {
+			pkgName = cf.PkgName
+		}
+	}
+	test := fmt.Sprintf(`//go:build verif
+
+package %s
+
+import (
+	"errors"
+	"os"
+	"path/filepath"
+	"testing"
+
+	"github.com/goreleaser/nfpm/v2"
+	"github.com/goreleaser/nfpm/v2/files"
+)
+
+type gvcFailWriter struct {
+	n, failAt int
+	failed    bool
+}
+
+func (w *gvcFailWriter) Write(p []byte) (int, error) {
+	if w.n == w.failAt {
+		w.failed = true
+		w.n++
+		return 0, errors.New("gvc: injected write failure")
+	}
+	w.n++
+	return len(p), nil
+}
+
+func TestGvcReplay(t *testing.T) {
+	dir := t.TempDir()
+	src := filepath.Join(dir, "payload")
+	if err := os.WriteFile(src, make([]byte, 70000), 0o644); err != nil {
+		t.Fatal(err)
+	}
+	mk := func() *nfpm.Info {
+		return nfpm.WithDefaults(&nfpm.Info{
+			Name: "gvcreplay", Arch: "amd64", Version: "1.0.0", Description: "d", Maintainer: "m <m@example.com>",
+			Overridables: nfpm.Overridables{Contents: files.Contents{{Source: src, Destination: "/usr/bin/payload"}}},
+		})
+	}
+	clean := &gvcFailWriter{failAt: -1}
+	if err := Default.Package(mk(), clean); err != nil {
+		t.Skipf("clean run failed: %%v", err)
+	}
+	for k := 0; k < clean.n; k++ {
+		w := &gvcFailWriter{failAt: k}
+		err := Default.Package(mk(), w)
+		if err == nil && w.failed {
+			t.Fatalf("GVC-REPLAY-VIOLATED %%s: Package returned nil although write #%%d of %%d to the destination failed", %q, k, clean.n)
+		}
+	}
+}
+`, pkgName, o.ID)
+	out, ok := e.runOverlayTest(c, test)
+	return out, ok, test
 }
